@@ -108,8 +108,8 @@ theorem npNeg_ones (n : Nat) :
   rw [h, npNeg, npNegList_ones]
   rfl
 
-theorem npSetItem2_nat {rows r : List PV} {v j : Nat} (hr : rows[v]? = some (.arr r)) (hj : j < r.length)
-    (x : Int) :
+theorem npSetItem2_nat {rows r : List PV} {v j : Nat} {k : Int} (hr : rows[v]? = some (.arr r))
+    (hj : r[j]? = some (.int k)) (x : Int) :
     npSetItem2 (.arr rows) (.int (v : Int)) (.int (j : Int)) (.int x) =
       .ok (.arr (rows.set v (.arr (r.set j (.int x))))) := by
   have hv : v < rows.length := by
@@ -150,24 +150,26 @@ overwrites the tail `suf` of row `v`. -/
 theorem setrow_loop (fuel v : Nat) (xs : List Nat) (ol : PV) :
     ∀ (n : Nat) (pre suf rows : List PV) (e : Gen.get_complete_accessor.Env),
       n = pre.length → e.accessor = .arr rows → e.vertex_index = .int (v : Int) →
-      rows[v]? = some (.arr (pre ++ suf)) → suf.length = xs.length → e.observed_length = ol →
+      rows[v]? = some (.arr (pre ++ suf)) → suf.length = xs.length →
+      (∀ y ∈ suf, ∃ m : Int, y = .int m) → e.observed_length = ol →
       ∃ e', forLoop (Gen.get_complete_accessor.for2_body fuel)
           (enumFrom n (xs.map fun (x : Nat) => PV.int (x : Int))) e = .ok (.norm e') ∧
         e'.accessor = .arr (rows.set v (.arr (pre ++ xs.map fun (x : Nat) => PV.int (x : Int)))) ∧
         e'.observed_length = ol := by
   induction xs with
   | nil =>
-    intro n pre suf rows e _ ha _ hr hs ho
+    intro n pre suf rows e _ ha _ hr hs _ ho
     have : suf = [] := List.eq_nil_of_length_eq_zero hs
     subst this
     exact ⟨e, rfl, by rw [ha, List.map_nil, set_self_of_getElem? hr], ho⟩
   | cons x xs ih =>
-    intro n pre suf rows e hn ha hv hr hs ho
+    intro n pre suf rows e hn ha hv hr hs hi ho
     cases suf with
     | nil => cases hs
     | cons s suf =>
-      have hj : n < (pre ++ s :: suf).length := by simp [hn]
-      have hset : (pre ++ s :: suf).set n (.int (x : Int)) = (pre ++ [.int (x : Int)]) ++ suf := by
+      obtain ⟨m, rfl⟩ := hi s (by simp)
+      have hj : (pre ++ PV.int m :: suf)[n]? = some (.int m) := by subst hn; simp
+      have hset : (pre ++ PV.int m :: suf).set n (.int (x : Int)) = (pre ++ [.int (x : Int)]) ++ suf := by
         subst hn; simp
       obtain ⟨e1, hb, ha1, hv1, ho1⟩ : ∃ e1,
           Gen.get_complete_accessor.for2_body fuel (.tup [.int (n : Int), .int (x : Int)]) e =
@@ -185,7 +187,7 @@ theorem setrow_loop (fuel v : Nat) (xs : List Nat) (ol : PV) :
             · exact h
             · rw [List.getElem?_eq_none h] at hr; cases hr
           rw [List.getElem?_set_self hvl])
-        (by simpa using hs) ho1
+        (by simpa using hs) (fun y hy => hi y (by simp [hy])) ho1
       refine ⟨e', ?_, ?_, ho'⟩
       · rw [List.map_cons, enumFrom_cons, forLoop_cons_norm hb, hl]
       · rw [ha', List.set_set, List.map_cons, List.append_assoc]; rfl
@@ -232,7 +234,8 @@ theorem setrow_rowsAt (k n fuel i : Nat) (hi : i < n) (e : Gen.get_complete_acce
       e1.accessor = .arr (rowsAt k n (i + 1)) ∧ e1.observed_length = .int (k : Int) := by
   obtain ⟨e', hl, ha', ho'⟩ := setrow_loop fuel i (obtainLatters k i) (.int (k : Int)) 0 []
     (List.replicate 4 (.int (-1))) (rowsAt k n i) e rfl h2 hv
-    (by rw [rowsAt_getElem? hi]; simp [negRow]) (by simp [obtainLatters]) h1
+    (by rw [rowsAt_getElem? hi]; simp [negRow]) (by simp [obtainLatters])
+    (fun y hy => ⟨-1, (List.mem_replicate.mp hy).2⟩) h1
   refine ⟨e', hl, ?_, ho'⟩
   rw [ha', List.nil_append]
   exact congrArg PV.arr (rowsAt_set k n i)
